@@ -313,7 +313,9 @@ def is_section_value(v):
 def searchpath_rule(c, chk, ex):
     nsites = 0
     for f in c.confuse.funcs.values():
-        sites = [x for x in f.calls('cfg_free')]
+        if f.name in c.unknown_funcs:
+            continue          # a helper is judged where it is used
+        sites = [x for x in c.deep_calls(f, 'cfg_free')]
         if not sites:
             continue
         paths = None
@@ -327,7 +329,7 @@ def searchpath_rule(c, chk, ex):
                 for i, e in enumerate(p.events):
                     if e.kind == 'call' and e.ins is call:
                         a = e.args[0]
-                        if not (is_section_value(a) or section_origin(f, call)):
+                        if not (is_section_value(a) or section_origin(call.func, call)):
                             continue
                         judged = True
                         na = sym.norm(a)
